@@ -209,13 +209,17 @@ Definition has_dyn (m : dynmark) (t : N) (dyn : list (N * dynmark)) : bool :=
                     | MSkip, MSkip | MAncFailed, MAncFailed | MWould, MWould => true
                     | _, _ => false end) dyn.
 
-(* update_states_in_database: one row per neighbour, in order *)
+(* update_states_in_database: the rows of the task for nodes that are no longer its neighbours are
+   deleted (F28), then one row per neighbour, in order *)
+Definition dbpurge (t : N) (ks : list N) (m : list (N * N * N)) : list (N * N * N) :=
+  filter (fun row => match row with (t', k', _) => negb (N.eqb t t' && negb (memN k' ks)) end) m.
+
 Definition record_states (E : list edge) (w : world) (t : task) : world :=
   mkWorld (fs w)
           (fold_left (fun d k => match state_of w t k with
                                  | Some s => dbupd (tid t) k s d
                                  | None => d end)
-                     (neighbours E t) (db w)).
+                     (neighbours E t) (dbpurge (tid t) (neighbours E t) (db w))).
 
 Section Protocol.
   (* what a task function writes into product p, given its module content and
